@@ -28,29 +28,28 @@ MANIFEST = {
     "text": "The XPath evaluator of libyang as a whole (src/xpath.c, 10 kLoC) is NOT modelled statement by statement. The Coq "
             "artefact is (A) an executable reference semantics of XPath 1.0 on YANG data trees written from the W3C "
             "recommendation (XPathSem.eval with spec_flags: 13 axes, node tests, predicates with position()/last(), filters, "
-            "unions, operators, core function library, current()), proved to have the set-theoretic properties of the property "
-            "text: C08_eval_nodeset_sorted_nodup / C08_eval_nodeset_nodup (every node-set value of every expression is strictly "
+            "unions, operators, core function library, current()), carrying one switch per construct in which xpath.c still "
+            "departs from the recommendation (impl_flags = as coded, 11 switches), proved to have the set-theoretic properties "
+            "of the property text FOR EVERY SETTING OF THE SWITCHES, in particular as coded: C08_eval_nodeset_sorted_nodup / "
+            "C08_eval_nodeset_nodup / C08_eval_nodeset_nodup_as_coded (every node-set value of every expression is strictly "
             "increasing in document order, hence duplicate free), C08_union_comm, C08_predicate_true_identity, "
             "C08_child_step_is_filter_of_children, C08_step_no_preds_is_union, C08_descendant_or_self_decomposes, "
             "C08_fastpath_equiv (l[k='v'] selects exactly the instances whose key child has string value v); and (B) the "
-            "conversion kernels modelled as coded (cast_string_to_number/strtold, lyxp_set_cast number->string, "
-            "xpath_floor/ceiling/round, string-length/substring on bytes) with impl = spec theorems on the domains where the "
-            "code follows the recommendation (C08_s2n_impl_eq_spec_plain, C08_n2s_impl_eq_spec_int, "
-            "C08_floor_impl_eq_spec_nonneg, C08_string_length_ascii) and refutation witnesses elsewhere. "
-            "The same evaluator carries one switch per construct in which xpath.c departs from the recommendation "
-            "(impl_flags, 25 switches). Tie to xpath.c: differential testing only - lyxp_eval()/lyd_eval_xpath4() on generated "
-            "expressions x trees x context nodes must answer the reference result, or the as-coded result, in which case the "
-            "needed switches name a LISTED deviation (known_findings.d/xpath.json, 30 entries, each with a replay on the real "
-            "library; a switch whose canonical witness the tree under test answers as the recommendation says is put back "
-            "automatically, so repaired deviations need no model change); any other answer is a violation. Oracle on the implementation itself: key predicates answered by the "
-            "hash lookup select the same nodes as forced generic evaluation, on lists without and with the children hash "
-            "table.",
+            "conversion kernels modelled as coded (cast_string_to_number/strtold, lyxp_set_cast number->string, floorl/ceill, "
+            "string-length/substring on bytes) with impl = spec theorems (C08_floor_impl_eq_spec for all numbers, "
+            "C08_s2n_impl_eq_spec_plain, C08_n2s_impl_eq_spec_int, C08_string_length_ascii on the domains where the code follows "
+            "the recommendation) and refutation witnesses elsewhere. Tie to xpath.c: differential testing only - "
+            "lyxp_eval()/lyd_eval_xpath4() on generated expressions x trees x context nodes must answer the reference result, or "
+            "the as-coded result, in which case the needed switches name a LISTED deviation (known_findings.d/xpath.json: 12 "
+            "known, each with a replay on the real library; 20 fixed in /repo 61e2388..f6e5fb8, whose witnesses stay as "
+            "regression cases); any other answer, crash or failed assertion is a violation. Oracles on the implementation "
+            "itself: key predicates answered by the hash lookup select the same nodes as forced generic evaluation, on lists "
+            "without and with the children hash table; no sanitizer report on generated expressions.",
     "note": "Not modelled: deref(), re-match(), derived-from(-or-self)(), enum-value(), bit-is-set(), lang(), id(), "
             "namespace-uri(), variables, metadata (attribute axis is empty in the model), opaque nodes, when/must integration, "
-            "schema (atom) evaluation. Unprefixed names are modelled by the documented rule (module of the context node) only; "
-            "the code's mix of that rule and any-module matching is a listed deviation decided syntactically. The theorem "
-            "C08_eval_nodeset_sorted_nodup excludes the switch f_alldup: with it (the code as it is) C08_nodeset_nodup_refuted "
-            "exhibits a node-set with a duplicate, confirmed on the library.",
+            "schema (atom) evaluation. Unprefixed names follow the JSON rule (module of the parent node). The key lookup of "
+            "the code is not modelled any more (it agrees with generic evaluation since 434e77e/a599f2f) except for one listed "
+            "residual case that is attributed by the shape of the expression.",
     "technique": "Coq proof over an executable specification + as-coded kernels, differential correspondence (extracted OCaml vs C) "
-                 "with deviation attribution, implementation-level oracle",
+                 "with deviation attribution, implementation-level oracles",
 }
